@@ -57,6 +57,10 @@ Comp(real, sub, w) == [k |-> "Comp", real |-> real, sub |-> sub, w |-> w]
 SE2(lo, hi, un, ud, N) == Comp("SE2", <<RV(2, lo, hi, un, ud), SO2(N)>>, <<<<1, 1>>, <<1, 2>>>>)
 SE3(lo, hi, un, ud) == Comp("SE3", <<RV(3, lo, hi, un, ud), SO3>>, <<<<1, 1>>, <<1, 1>>>>)
 Wrap(S) == [k |-> "Wrap", of |-> S]
+(* the shipped SE(2) / SE(3) classes after CompoundStateSpace::setSubspaceWeight(): still the real class, *)
+(* other weights; the contract is the same weighted sum (and weighted sum of extents)                  *)
+SE2w(lo, hi, un, ud, N, w1, w2) == Comp("SE2", <<RV(2, lo, hi, un, ud), SO2(N)>>, <<w1, w2>>)
+SE3w(lo, hi, un, ud, w1, w2) == Comp("SE3", <<RV(3, lo, hi, un, ud), SO3>>, <<w1, w2>>)
 
 (* ------------------------------ SO(3): Hurwitz lattice ------------------------------ *)
 Q24 == {q \in [1..4 -> {-2, -1, 0, 1, 2}] :
@@ -261,6 +265,13 @@ Sp == CASE SpaceId = "rv1" -> RV(1, -2, 2, 1, 1)
         [] SpaceId = "nest" -> Nest
         [] SpaceId = "hybrid" -> Hybrid
         [] SpaceId = "rot3" -> Rot3
+        [] SpaceId = "se2w" -> IF Size = 1 THEN SE2w(0, 1, 1, 1, 4, W(3, 1), W(2, 1))
+                               ELSE SE2w(-1, 1, 1, 1, 4, W(3, 1), W(2, 1))
+        [] SpaceId = "se3w" -> SE3w(0, 1, 2, 1, W(1, 1), W(1, 16))
+        [] SpaceId = "nest-se2w" -> Comp("Compound", <<SE2w(0, 1, 1, 1, 2, W(1, 4), W(1, 1)), TimeS(0, 1, 1, 2)>>,
+                                         <<W(3, 2), W(1, 2)>>)
+        [] SpaceId = "nest-se3w" -> Comp("Compound", <<SE3w(0, 1, 1, 1, W(2, 1), W(1, 2)), SO2(1)>>, <<W(1, 2), W(3, 1)>>)
+        [] SpaceId = "wrap-se2w" -> Wrap(SE2w(0, 1, 1, 1, 2, W(1, 1), W(1, 16)))
         [] SpaceId = "wrap-se2" -> Wrap(SE2(0, 1, 1, 1, 4))
         [] SpaceId = "wrap-so3" -> Wrap(SO3)
         [] SpaceId = "wrap-nest" -> Wrap(Comp("Compound", <<Wrap(SO2(4)), RV(1, 0, 2, 1, 4)>>, <<W(3, 4), W(2, 1)>>))
@@ -284,10 +295,10 @@ Code(S, v) ==       \* an integer code of a lattice state (not injective; only u
 Thin(set, m) == IF m <= 1 THEN set ELSE {v \in set : Code(Sp, v) % m = 0}
 
 (* how much of the lattice each kind of case uses: <<pairs-from, triples, interp-from>> moduli *)
-Mods == CASE SpaceId \in {"se3"} -> IF Size = 1 THEN <<4, 12, 32>> ELSE <<1, 5, 16>>
+Mods == CASE SpaceId \in {"se3", "se3w"} -> IF Size = 1 THEN <<4, 12, 32>> ELSE <<1, 5, 16>>
           [] SpaceId \in {"nest"} -> IF Size = 1 THEN <<4, 16, 32>> ELSE <<1, 7, 24>>
-          [] SpaceId \in {"rot3"} -> IF Size = 1 THEN <<8, 24, 96>> ELSE <<1, 12, 48>>
-          [] SpaceId \in {"se2"} -> IF Size = 1 THEN <<1, 2, 2>> ELSE <<1, 4, 8>>
+          [] SpaceId \in {"rot3", "nest-se3w"} -> IF Size = 1 THEN <<8, 24, 96>> ELSE <<1, 12, 48>>
+          [] SpaceId \in {"se2", "se2w"} -> IF Size = 1 THEN <<1, 2, 2>> ELSE <<1, 4, 8>>
           [] SpaceId \in {"wrap-se2"} -> IF Size = 1 THEN <<2, 4, 4>> ELSE <<1, 1, 1>>
           [] SpaceId \in {"torus"} -> IF Size = 1 THEN <<1, 1, 1>> ELSE <<1, 2, 2>>
           [] SpaceId \in {"hybrid"} -> IF Size = 1 THEN <<1, 3, 1>> ELSE <<1, 1, 1>>
